@@ -358,6 +358,7 @@ package decorator
 //@ func (pr *Restorer) RestoreFile
 //@ requires ready: pr != nil && pr.readyInv()
 //@ ensures ready: pr.readyInv()
+//@ modifies allbut(heap(Package.Syntax); heap(Package.Decorator); heap(Package.Dir); heap(Decorator.Filenames); elems(*dst.File); map(*dst.File, string))
 
 //@ func (pr *Restorer) Fprint
 //@ requires ready: pr != nil && pr.readyInv()
